@@ -272,7 +272,35 @@ def sweep_corruptions(rep, root, limit, rnd):
                 rep.violation(f"accepted-tampered:{cmdname}:{which}.{top}", {"file": f"{p}.{which}", "path": list(pa), "old": v})
         with open(proj.path(p, which), "w") as f:
             f.write(orig)
-    return {"corruption_leaves_total": total, "corruption_leaves_tried": done, "corruptions_accepted": accepted}
+    # ---- targeted alterations of the dependency table of a *stale* core (built against an interface its dependency no
+    # longer exports): making the recorded hash agree with the new interface, or dropping the entry, must not make it linkable
+    proj.ie["A"].append("addfn"); proj.write_src("A")
+    v, err, _ = proj.compile_pkg("build", "A")
+    if v != "ok":
+        raise ToolError("sweep: rebuild of A failed: " + err)
+    v, err, _ = proj.link(["A", "B", "Main"])
+    if v != "fail":
+        rep.violation("verdict:link:expected-fail:stale-after-rebuild", {"stderr": err})
+    newA = json.load(open(proj.path("A", "core")))["interface"]["interface_hash"]
+    origB = open(proj.path("B", "core")).read()
+    forged = 0
+    for name, edit in (("overwrite-with-current-hash", lambda j: j["deps"].__setitem__("A", newA)),
+                       ("drop-entry", lambda j: j["deps"].pop("A")),
+                       ("empty-table", lambda j: j["deps"].clear()),
+                       ("overwrite-both-tables", lambda j: (j["deps"].__setitem__("A", newA), j["interface"]["deps"].__setitem__("A", newA)))):
+        jj = json.loads(origB)
+        edit(jj)
+        with open(proj.path("B", "core"), "w") as f:
+            json.dump(jj, f, indent=2, ensure_ascii=False)
+        got, err, pan = proj.link(["A", "B", "Main"])
+        forged += 1
+        if pan:
+            rep.violation(f"panic:link:stale-deps:{name}", {"stderr": err})
+        elif got == "ok":
+            rep.violation(f"accepted-tampered:link:stale-core-deps:{name}", {"file": "B.core", "edit": name})
+    with open(proj.path("B", "core"), "w") as f:
+        f.write(origB)
+    return {"corruption_leaves_total": total, "corruption_leaves_tried": done, "corruptions_accepted": accepted, "stale_deps_forgeries": forged}
 
 
 def run(tier, rep):
